@@ -107,11 +107,14 @@ func genC12(r *hx.R, tier string, scratch string) (*hx.Suite, error) {
 		Shard:    400,
 		Rule: "one case per child process: N goroutines issue the public cache operations (ListDevices, GetDevice, InjectDevices, Refresh, " +
 			"Configure(WithSpecDirs/WithAutoRefresh), WriteSpec, RemoveSpec, GetErrors, GetSpecErrors, GetSpecDirErrors, GetSpecDirectories, GetVendorSpecs, " +
-			"ListVendors, ListClasses, SetSpecValidator, the package-level default-cache functions) on one cache under randomised yields while files change " +
+			"ListVendors, ListClasses, SetSpecValidator, the package-level default-cache functions, NewCache of further short-lived caches) on one cache under randomised yields while files change " +
 			"underneath and the watcher refreshes; children whose 4-16 goroutines, released together, make the first use of the package-level default cache; " +
 			"all built with -race (a report ends the child with exit 66, a 20 s stall of all operations with exit 67); " +
 			"plus the snapshot scenario: one Spec file flips by rename(2) between contents A and B while readers compare every ListDevices / InjectDevices / " +
-			"GetVendorSpecs result with the two admissible results (one case per distinct observed result); plus the list of exported *Cache methods " +
+			"GetVendorSpecs / GetDevice result with the two admissible results (one case per distinct observed result; in automatic mode every third switch is made by " +
+			"Cache.WriteSpec); after every soak, with the workers stopped: all candidate directories made to exist and given one more Spec, the cache as the workers left it " +
+			"polled (Refresh + queries) until it answers like a fresh cache on its directory list (devices with defining files, files in error), then configured onto all " +
+			"directories in automatic mode and required to follow a Spec dropped into each directory in turn; plus the list of exported *Cache methods " +
 			"(reflection) which must all be entry points of the regenerated lock model.",
 		Extra: map[string]interface{}{"x_race_detector": c12RaceEnabled},
 	}
@@ -197,8 +200,12 @@ func genC12(r *hx.R, tier string, scratch string) (*hx.Suite, error) {
 			Key:        sc.Name,
 		})
 		// snapshot observations: one case per query kind with every distinct result observed (fixed shape, so case indices are stable)
-		if sc.Mode == "snap" {
-			for _, kind := range c12SnapKinds {
+		kinds := c12SnapKinds
+		if sc.Mode == "soak" {
+			kinds = []string{c12FinalKind, c12FollowKind}
+		}
+		if sc.Mode == "snap" || sc.Mode == "soak" {
+			for _, kind := range kinds {
 				exp := res.Expect[kind]
 				var terms []string
 				var shown []map[string]interface{}
@@ -237,7 +244,94 @@ func genC12(r *hx.R, tier string, scratch string) (*hx.Suite, error) {
 	return s, nil
 }
 
-var c12SnapKinds = []string{"ListDevices", "InjectDevices(common)", "InjectDevices(common+onlyA)", "GetVendorSpecs", "ListVendors"}
+// c12Follow: see c12FollowKind.  One directory after the other: a file is dropped, the cache is polled (queries only) until it
+// answers like a fresh cache, 3 s each; the last answers are reported.
+func c12Follow(st *c12State, stage string, tmpN *atomic.Int64) (fresh, got []string) {
+	cache := st.cache
+	st.guarded("Configure(both)", func() { _ = cache.Configure(cdi.WithAutoRefresh(true), cdi.WithSpecDirs(st.dirs...)) })
+	for i, d := range st.dirs {
+		_ = c12Put(stage, filepath.Join(d, fmt.Sprintf("follow%d.json", i)), c12Spec("follow.org", "class", "follow", []string{fmt.Sprintf("g%d", i)}, ""), tmpN)
+		fc, _ := cdi.NewCache(cdi.WithSpecDirs(st.dirs...), cdi.WithAutoRefresh(true))
+		fresh = c12Answer(fc)
+		_ = fc.Configure(cdi.WithAutoRefresh(false))
+		for start := time.Now(); ; time.Sleep(2 * time.Millisecond) {
+			st.guarded("ListDevices", func() { got = c12Answer(cache) })
+			if c12Eq(got, fresh) {
+				break
+			}
+			if time.Since(start) > 3*time.Second {
+				return
+			}
+		}
+	}
+	return
+}
+
+var c12SnapKinds = []string{"ListDevices", "InjectDevices(common)", "InjectDevices(common+onlyA)", "GetVendorSpecs", "ListVendors", "GetDevice(dev00)", "GetDevice(onlyA)"}
+
+// after a soak: what the cache answers once everything has stopped, against a cache freshly built on the same directories
+// (both admissible results of the observation case are the fresh cache's answer)
+const c12FinalKind = "final-state"
+
+// and then: the same cache configured (by the harness, alone) onto all candidate directories in automatic mode must follow one
+// more Spec file dropped into each directory in turn, without any Refresh
+const c12FollowKind = "final-state/reconfigured-and-followed"
+
+// DEFECT-PENDING(straggler-direrrors): the directory errors are part of the final-state comparison only when this is on
+// (notes/audit/DEFECT-C20-straggler-direrrors.md; VERIF_PENDING=straggler-direrrors switches it on for one run)
+const c12PendingStraggler = false
+
+func c12Pending() bool {
+	return c12PendingStraggler || strings.Contains(","+os.Getenv("VERIF_PENDING")+",", ",straggler-direrrors,")
+}
+
+// c12Answer: devices with their defining files, files in error (and directories in error, see above), sorted.
+func c12Answer(c *cdi.Cache) []string {
+	var out []string
+	for _, n := range c.ListDevices() {
+		p := "?"
+		if d := c.GetDevice(n); d != nil {
+			p = d.GetSpec().GetPath()
+		}
+		out = append(out, n+"@"+p)
+	}
+	de := c.GetSpecDirErrors()
+	for k := range c.GetErrors() {
+		if _, isDir := de[k]; !isDir {
+			out = append(out, "error:"+k)
+		}
+	}
+	if c12Pending() {
+		for k := range de {
+			out = append(out, "directory-error:"+k)
+		}
+	}
+	sort.Strings(out)
+	return out
+}
+
+// c12FinalState: the workers have stopped.  Every candidate directory is made to exist and gets one more Spec file (atomically);
+// then the cache — whatever configuration the workers left it in — must come to answer like a fresh cache on the same directory
+// list: by itself in automatic mode (Refresh() is a query there), through Refresh() in manual mode.  Polled, 5 s.
+func c12FinalState(st *c12State, stage string, tmpN *atomic.Int64) (fresh, got []string) {
+	cache := st.cache
+	time.Sleep(50 * time.Millisecond) // watch goroutines finish what they were waiting to do
+	for i, d := range st.dirs {
+		_ = os.MkdirAll(d, 0o755)
+		_ = c12Put(stage, filepath.Join(d, fmt.Sprintf("final%d.json", i)), c12Spec("final.org", "class", "final", []string{fmt.Sprintf("f%d", i)}, ""), tmpN)
+	}
+	dirs := cache.GetSpecDirectories()
+	fc, _ := cdi.NewCache(cdi.WithSpecDirs(dirs...), cdi.WithAutoRefresh(true))
+	fresh = c12Answer(fc)
+	_ = fc.Configure(cdi.WithAutoRefresh(false))
+	for start := time.Now(); ; time.Sleep(5 * time.Millisecond) {
+		st.guarded("Refresh", func() { _ = cache.Refresh() })
+		st.guarded("ListDevices", func() { got = c12Answer(cache) })
+		if c12Eq(got, fresh) || time.Since(start) > 5*time.Second {
+			return
+		}
+	}
+}
 
 func c12Eq(a, b []string) bool {
 	if len(a) != len(b) {
@@ -609,6 +703,13 @@ func c12Soak(st *c12State, profile string, seed int64, dur time.Duration, worker
 		{"cdi.GetErrors", 1, func(r *rand.Rand) { use(len(cdi.GetErrors())) }},
 		{"cdi.InjectDevices", 1, func(r *rand.Rand) { _, _ = cdi.InjectDevices(&oci.Spec{}, qualified[r.Intn(len(qualified))]) }},
 		{"cdi.GetDefaultCache", 1, func(r *rand.Rand) { use(len(cdi.GetDefaultCache().ListDevices())) }},
+		{"NewCache", 1, func(r *rand.Rand) {
+			// another cache comes and goes (its own watcher on the same directories)
+			if oc, err := cdi.NewCache(cdi.WithSpecDirs(randDirs(r)...), cdi.WithAutoRefresh(r.Intn(3) != 0)); err == nil && oc != nil {
+				use(len(oc.ListDevices()))
+				_ = oc.Configure(cdi.WithAutoRefresh(false))
+			}
+		}},
 		{"cdi.SetSpecValidator", 1, func(r *rand.Rand) {
 			if r.Intn(2) == 0 {
 				cdi.SetSpecValidator(c12Validator{})
@@ -680,10 +781,14 @@ func c12Soak(st *c12State, profile string, seed int64, dur time.Duration, worker
 		fmt.Fprintf(os.Stderr, "C12 WATCHDOG: workers did not finish within %d s after the end of the run (deadlock)\n", stall+5)
 		return c12Result{}, c12ExitStall
 	}
+	fresh, got := c12FinalState(st, stage, &tmpN)
+	fresh2, got2 := c12Follow(st, stage, &tmpN)
+	res := c12Result{Expect: map[string][2][]string{c12FinalKind: {fresh, fresh}, c12FollowKind: {fresh2, fresh2}},
+		Observed: []c12Obs{{Kind: c12FinalKind, Obs: got, Count: 1}, {Kind: c12FollowKind, Obs: got2, Count: 1}}}
 	// leave no watcher behind; the final state must still answer
 	st.guarded("Configure(WithAutoRefresh)", func() { _ = cache.Configure(cdi.WithAutoRefresh(false)) })
 	st.guarded("ListDevices", func() { use(len(cache.ListDevices())) })
-	return c12Result{}, 0
+	return res, 0
 }
 
 // ------------------------------------------------------------------------------------------------
@@ -768,8 +873,18 @@ func c12Snap(st *c12State, profile string, seed int64, dur time.Duration, worker
 		"InjectDevices(common+onlyA)": {env("A", true), {"unresolved", q("onlyA")}},
 		"GetVendorSpecs":              {specView("A", "onlyA"), specView("B", "onlyB")},
 		"ListVendors":                 {{"other.org", "vendor.com"}, {"other.org", "vendor.com"}},
+		"GetDevice(dev00)":            {{"SPEC=A", "DEV0=A"}, {"SPEC=B", "DEV0=B"}},
+		"GetDevice(onlyA)":            {{"SPEC=A", "ONLY=A"}, {"nil"}},
 	}}
 	rec := &c12Recorder{obs: map[string]*c12Obs{}}
+	getDevice := func(kind, name string) {
+		d := cache.GetDevice(q(name))
+		if d == nil {
+			rec.add(kind, []string{"nil"})
+			return
+		}
+		rec.add(kind, append(append([]string{}, d.GetSpec().ContainerEdits.Env...), d.ContainerEdits.Env...))
+	}
 	inject := func(kind string, req []string) {
 		o := &oci.Spec{}
 		unresolved, err := cache.InjectDevices(o, req...)
@@ -792,7 +907,12 @@ func c12Snap(st *c12State, profile string, seed int64, dur time.Duration, worker
 		r := rand.New(rand.NewSource(seed))
 		cur := specB
 		for !st.stop.Load() {
-			st.guarded("fs:flip", func() { _ = c12Put(stage, target, cur, &tmpN) })
+			if n := flips.Load(); auto && n%3 == 2 {
+				// the library's own atomic publication (temporary file in the directory, rename) as the switch
+				st.guarded("WriteSpec", func() { _ = cache.WriteSpec(cur, "vendor.json") })
+			} else {
+				st.guarded("fs:flip", func() { _ = c12Put(stage, target, cur, &tmpN) })
+			}
 			flips.Add(1)
 			if cur == specA {
 				cur = specB
@@ -822,7 +942,11 @@ func c12Snap(st *c12State, profile string, seed int64, dur time.Duration, worker
 			defer wg.Done()
 			r := rand.New(rand.NewSource(seed*1000 + int64(w)))
 			for !st.stop.Load() {
-				switch r.Intn(8) {
+				switch r.Intn(10) {
+				case 8:
+					st.guarded("GetDevice", func() { getDevice("GetDevice(dev00)", "dev00") })
+				case 9:
+					st.guarded("GetDevice", func() { getDevice("GetDevice(onlyA)", "onlyA") })
 				case 0, 1:
 					st.guarded("ListDevices", func() { rec.add("ListDevices", cache.ListDevices()) })
 				case 2, 3, 4:
